@@ -37,6 +37,8 @@ var corpus = []string{
 	// anchored patterns with optional / alternative capture groups (one-pass DFA capture path)
 	`^(x)?(y)?z$`, `^([a-z]+)(?:=(\d+))?;`, `^(\d+)(?:\.(\d+))?$`, `^(GET|POST) (/\S*)(?: (HTTP/\d))?$`, `^(?:(a)|(b))c`, `^(\w+)(?:-(\w+))?(?:\.(\w+))?$`,
 	`^([+-])?(\d+)$`, `^(foo)(bar)?(baz)?`, `^(\w)(\w)?(\w)?$`,
+	// state blow-up (many reachable DFA states on inputs over the pattern's own alphabet)
+	`a[ab]{12}[cd]`, `[cd][ab]{10}a[ab]*x`, `ab[ab]{20}c`, `(a|b)*a(a|b){9}`, `[01]*1[01]{11}`,
 }
 
 // longAlternation builds an alternation of n distinct words (Aho-Corasick range).
@@ -169,6 +171,16 @@ func patternAlphabet(p string) []string {
 	return a
 }
 
+// patternOnlyAlphabet keeps the symbols that come from the pattern itself: noise
+// made of them keeps automata busy (state blow-up, cache pressure) instead of
+// resetting them at every other byte.
+func patternOnlyAlphabet(alpha []string) []string {
+	if len(alpha) <= len(noiseRunes) {
+		return alpha
+	}
+	return alpha[len(noiseRunes):]
+}
+
 func genNoise(r *rng, alpha []string, n int) []byte {
 	var out []byte
 	if n > 0 && r.p(1, 3) {
@@ -202,7 +214,31 @@ func genHaystack(r *rng, p string, re *syntax.Regexp, alpha []string, class int)
 	case 3:
 		maxNoise, pieces = 600, r.between(1, 8)
 	default:
-		maxNoise, pieces = 8000, r.between(1, 12)
+		maxNoise, pieces = 3000, r.between(1, 6)
+	}
+	// a quarter of the haystacks are a bare member of the language, or one with a
+	// single byte changed: anchored machinery (one-pass DFA, anchored literals,
+	// branch dispatch, reverse-anchored search) only runs far on such inputs
+	if class <= 2 && r.p(1, 4) {
+		m := genMatch(r, re, 0)
+		if r.p(1, 2) && len(m) > 0 {
+			k := len(m) - 1
+			if r.p(1, 2) {
+				k = r.n(len(m))
+			}
+			switch r.n(3) {
+			case 0:
+				m[k] ^= 0x20
+			case 1:
+				m[k] = pick(r, alpha)[0]
+			case 2:
+				m = append(m[:k], m[k+1:]...)
+			}
+		}
+		return m
+	}
+	if r.p(1, 3) {
+		alpha = patternOnlyAlphabet(alpha)
 	}
 	var out []byte
 	for i := 0; i < pieces; i++ {
